@@ -271,10 +271,10 @@ def run(tier, seed):
     rng = random.Random(seed)
     if tier == 'quick':
         exh = {1: 4, 2: 5, 3: 5}      # LEN -> max list length enumerated
-        nrand, nwidth, variants = 1500, 3000, [('release', 1.0), ('dev', 0.5), ('nightly', 0.5)]
+        nrand, nwidth, variants = 1500, 3000, [('release', 1.0), ('dev', 0.5), ('nightly', 0.5), ('plain', 0.3)]
     else:
         exh = {1: 4, 2: 5, 3: 6, 4: 7}
-        nrand, nwidth, variants = 60000, 200000, [('release', 1.0), ('dev', 0.3), ('nightly', 0.3)]
+        nrand, nwidth, variants = 60000, 200000, [('release', 1.0), ('dev', 0.3), ('nightly', 0.3), ('plain', 0.2)]
     try:
         for variant, frac in variants:
             binary = build(variant)
